@@ -103,7 +103,35 @@ def pattern_history_cases():
                            "seed": 11, "std": False, "implicit_root": False, "iters": 2, "sched_seed": 5}
 
 
+def _custom_case(case):
+    """the custom-function family is run on the documents of every third case (it is the same family each time)"""
+    return isinstance(case["doc"], (dict, list)) and case["seed"] % 3 == 0
+
+
+def lookalike_literal_cases():
+    """one filter holding two constant sub-expressions that differ only by look-alike literals (1 / true, 0 / false, 1 / 1.0,
+    also inside list literals and function arguments): each keeps its own value"""
+    def root(name):
+        return ["root", False, ["sel", ["name", name]]]
+
+    def ctx(name):
+        return ["ctx", ["sel", ["name", name]]]
+    pairs = [(1, True), (0, False), (True, 1), (False, 0), ("1", 1), (None, False), (0, None)]
+    for x, y in pairs:
+        for lhs in (root("a"), ctx("k"), ["fn", "value", root("a")], ["fn", "count", ["root", False, ["sel", "wild"]]]):
+            ex, ey = ["op", "==", lhs, ["lit", x]], ["op", "==", lhs, ["lit", y]]
+            kx, ky = ["op", "==", ["self", ["sel", ["name", "kind"]]], ["lit", "n"]], ["op", "==", ["self", ["sel", ["name", "kind"]]], ["lit", "b"]]
+            for e in (["op", "||", ["op", "&&", kx, ex], ["op", "&&", ky, ey]], ["op", "&&", ["op", "||", kx, ex], ["op", "||", ky, ["not", ey]]],
+                      ["op", "||", ["op", "&&", ex, kx], ["op", "&&", ["op", "in", lhs, ["list", ["lit", y]]], ky]]):
+                for a in (x, y):
+                    doc = {"a": a, "items": [{"kind": "n", "id": 1}, {"kind": "b", "id": 2}, {"kind": "z", "id": 3}]}
+                    q = {"first": {"fake": False, "segs": [["list", ["name", "items"]], ["list", ["filter", e]]]}, "rest": []}
+                    yield {"query": q, "doc": doc, "other": dict(doc, a=y if a == x else x), "ctx": dict(Q.CTX, k=a), "seed": 12, "std": False,
+                           "implicit_root": False, "iters": 2, "sched_seed": 6}
+
+
 def gen(rng, tier):
+    yield from lookalike_literal_cases()
     yield from pattern_history_cases()
     n = 4000 if tier == "thorough" else 450
     for i in range(n):
@@ -272,7 +300,7 @@ def impl(case):
         out["cache"] = None
         out["unobservable"] = ["cache"]
     out["cached_run_equal"] = out["first"] == out["no_cache"]
-    if isinstance(case["doc"], (dict, list)):
+    if _custom_case(case):
         from .evalbase import custom_functions_agree
         out["custom_functions"] = custom_functions_agree(case["doc"], case["ctx"])
         if out["custom_functions"] == "same" and isinstance(case["other"], (dict, list)):
@@ -326,14 +354,14 @@ def decode(sx, case):
     model = {"text": render(case), "first": ms, "again": ms, "hundredth": ms, "no_cache": ms, "interleaved_ok": True, "mutated_in_place_ok": True,
              "threads_agree": True, "threads_first": vals, "doc_unchanged": True, "ctx_unchanged": True,
              "query_unchanged": True, "recompiled_equal": True}
-    if isinstance(case["doc"], (dict, list)):
+    if _custom_case(case):
         model["custom_functions"] = "same"
     model["cache"] = [[x[0] == "true", [[int(i) for i in pos] for pos in x[1]]] for x in extra.get("cache", [])]
     model["cached_run_equal"] = extra.get("cached-run-equal") == "true"
     spec_ = {k: [[m[0], m[1]] for m in nodes] for k in ("first", "again", "hundredth", "no_cache")}
     spec_.update({"cached_run_equal": True, "interleaved_ok": True, "mutated_in_place_ok": True, "threads_agree": True, "threads_first": [m[1] for m in nodes], "doc_unchanged": True,
                   "ctx_unchanged": True, "query_unchanged": True, "recompiled_equal": True})
-    if isinstance(case["doc"], (dict, list)):
+    if _custom_case(case):
         spec_["custom_functions"] = "same"
     return {"model": model, "spec": spec_, "in_domain": ext[1] == "true" and wf[1] == "true"}
 
